@@ -40,7 +40,8 @@ Inductive eunit :=
 | EHook (st : runstate)
 | EDelete
 | ERetry
-| ESched (fid : N).                     (* schedule.go: the scheduling process of one foreign ID *)
+| ESched (fid : N)                      (* schedule.go: the scheduling process of one foreign ID *)
+| EConn (cid : N) (i n : Z).            (* connector.go: shard i of n of the consumer of connector cid *)
 
 Definition eunit_eqb (a b : eunit) : bool :=
   match a, b with
@@ -49,6 +50,7 @@ Definition eunit_eqb (a b : eunit) : bool :=
   | EPoller s, EPoller s' | EInserter s, EInserter s' => Z.eqb s s'
   | EHook a, EHook b => rs_eqb a b
   | ESched a, ESched b => N.eqb a b
+  | EConn a i n, EConn a' i' n' => N.eqb a a' && Z.eqb i i' && Z.eqb n n'
   | _, _ => false
   end.
 
@@ -61,6 +63,7 @@ Definition eunit_code (u : eunit) : N :=
   | EPoller s => 500000 + Z.to_N (Z.abs s)
   | EInserter s => 700000 + Z.to_N (Z.abs s)
   | ESched f => 900000 + f
+  | EConn cid i _ => 800000 + 1000 * cid + Z.to_N i
   end%N.
 
 (* ---------- user functions: a small deterministic script language ---------- *)
@@ -88,7 +91,7 @@ Fixpoint eval_beh (b : beh) (attempt : nat) (seed : Z) : bool * action :=
 
 Inductive ufun :=
 | UFStep (s : Z) | UFCallback (s : Z) (j : nat) | UFTimer (s : Z) (j : nat) | UFTimeout (s : Z) (j : nat)
-| UFHook (st : runstate) | UFDelete | UFFilter (fid : N).
+| UFHook (st : runstate) | UFDelete | UFFilter (fid : N) | UFConn (cid : N).
 
 Definition ufun_code (u : ufun) : Z :=
   match u with
@@ -99,6 +102,7 @@ Definition ufun_code (u : ufun) : Z :=
   | UFHook st => 5000000 + rs_code st
   | UFDelete => 6000000
   | UFFilter f => 7000000 + Z.of_N f
+  | UFConn cid => 8000000 + Z.of_N cid
   end.
 
 (* ---------- program / configuration ---------- *)
@@ -108,6 +112,9 @@ Record tocfg := mkTo { to_status : Z; to_dur : Z (* < 0: timer function returns 
 
 (* a schedule: cron specification [sd_spec] (index into the periodic family below), initial value, and a schedule filter
    answering false on its first [sd_filter] invocations (0 = no filter configured) *)
+(* a connector: its consumer function fails its first [cn_fail] invocations per event; [cn_par] = its ParallelCount (0 = default) *)
+Record conncfg := mkConn { cn_id : N; cn_fail : nat; cn_par : Z }.
+
 Record schedcfg := mkSched { sd_fid : N; sd_spec : Z; sd_seed : Z; sd_filter : Z }.
 
 (* the cron specifications of the harness, as (period, phase) in ns relative to the harness's base instant
@@ -126,6 +133,7 @@ Record econfig := mkEcfg {
   ec_tos : list tocfg;
   ec_hooks : list (runstate * nat);     (* hook for a state, failing its first k invocations per run *)
   ec_scheds : list schedcfg;
+  ec_conns : list conncfg;
   ec_del : Z;                           (* 0 = default marker; 1 = custom delete; 2+k = custom delete failing its first k invocations per run *)
   ec_dpar : Z;                          (* default ParallelCount *)
   ec_dpause : Z;                        (* default PauseAfterErrCount *)
